@@ -131,7 +131,7 @@ def run_case(case: Dict[str, Any], ctx) -> None:
         return
     ctx.count("fit:forward", 2)
     ctx.nontrivial(sig_of(case))
-    lowp = dtype in (torch.bfloat16, torch.float16)
+    lowp = dtype in (torch.bfloat16, torch.float16) or (dtype == torch.float32 and bool(cfg.get("_mags")))
     _noise: Dict[str, float] = {}
 
     def noise_of(tag: str) -> float:
